@@ -430,7 +430,7 @@ func (tr *trans) call(v ssa.Value, c *ssa.CallCommon, st State) {
 	sig := c.Signature()
 	if c.IsInvoke() {
 		recv := tr.val(c.Value)
-		tr.panicCheck("nil-iface-call:"+tr.srcText(pos)+":"+c.Value.Name()+"."+c.Method.Name(), not(eq("(itag "+recv+")", "0")), pos)
+		tr.panicCheck("nil-iface-call:"+tr.srcText(pos)+":."+c.Method.Name(), not(eq("(itag "+recv+")", "0")), pos)
 		key := ifaceKey(c.Value.Type(), c.Method)
 		fc := tr.prog.CS.Funcs[key]
 		if fc == nil && (key == "error.Error") {
@@ -542,7 +542,7 @@ func (tr *trans) call(v ssa.Value, c *ssa.CallCommon, st State) {
 			return
 		}
 	}
-	tr.panicCheck("nil-func-call:"+tr.srcText(pos)+":"+c.Value.Name(), not(eq(tr.val(c.Value), "0")), pos)
+	tr.panicCheck("nil-func-call:"+tr.srcText(pos), not(eq(tr.val(c.Value), "0")), pos)
 	// call through a struct field of function type: contract keyed by pkg.Struct.field
 	if key := funcFieldKey(c.Value); key != "" {
 		if fc := tr.prog.CS.Funcs[key]; fc != nil {
